@@ -102,6 +102,8 @@ OutOfPlace(e, m) ==
   \/ m.t \in {"SEG", "ACK", "REFUSE", "TERM"} /\ ~hInit[e]
   \/ m.t = "SEG" /\ ~HasStart(m.flags) /\ rxa[e].cur # m.id
   \/ m.t \in {"ACK", "REFUSE"} /\ hInit[e] /\ m.id \notin (Ids(queued[e]) \ Ids(sfin[e]))
+  \* a SESS_TERM marked as a reply although e has not asked for termination
+  \/ m.t = "TERM" /\ hInit[e] /\ m.flags = 1 /\ ~ws[e].term
 
 ----------------------------------------------------------------------------
 (* clauses: sets of [tags, name, ok, kf], see ClauseLib *)
